@@ -73,7 +73,11 @@ class H(W.Hooks):
                             "operations": schedule.instance.num_operations})
 
     def fork_diverged(self, run, detail):
-        self.ctx.violation("c01_copied_dispatcher_not_independent", detail)
+        kind = ("c01_state_changed_by_a_library_component_looking_at_it"
+                if "in the middle of the history" in str(detail.get("when")) else
+                "c01_copied_dispatcher_not_independent" if "copy" in str(detail.get("when")) else
+                "c01_dispatchers_for_the_same_instance_not_independent")
+        self.ctx.violation(kind, detail)
 
     def end(self, run):
         ctx = self.ctx
